@@ -103,6 +103,14 @@ func ValidateAttestation(ctx context.Context, subnet uint64, att *phase0.Attesta
 		} else if !inSubtree {
 			return nil, GossipValidatorResult{IGNORE, errors.New("block not in subtree of finalized root")}
 		}
+		// Building on the finalized block is not enough: a block before the start slot of the finalized epoch
+		// (on top of a finalized block that is older than that slot) conflicts with the finalized checkpoint.
+		finSlot, _ := spec.EpochStartSlot(fin.Epoch)
+		if ancestor, ok := GetAncestor(ch, blockRef, finSlot); !ok {
+			return nil, GossipValidatorResult{IGNORE, errors.New("unknown ancestor of voted block, cannot check finalized checkpoint")}
+		} else if ancestor != fin.Root {
+			return nil, GossipValidatorResult{IGNORE, errors.New("block conflicts with the finalized checkpoint")}
+		}
 	} else if spec.SlotToEpoch(blockRef.Step().Slot()) > att.Data.Target.Epoch {
 		// The finalized block may be older than the start of the finalized epoch (empty slots):
 		// compare the target with the epoch of the block itself, not with the finalized epoch.
